@@ -97,6 +97,11 @@ CLAIMED = {
   note="Does not decide that index answers equal the written-and-not-dropped series after arbitrary histories, agreement of the two index types, TSI compaction merge semantics, or predicate evaluation.",
   technique="static analysis: must-precede and outcome facts, path avoidance between scan and flush, paired set operations per branch, definition provenance, path exploration with condition facts",
   ref="§9 C14"),
+ "C18": dict(
+  text="Structural clauses of backup/restore/shard copy: the copy-shard handler's work closure returns nil only after backupRemoteShard, CreateShard and RestoreShard returned nil, the success response is sent only when the closure returned nil, Client.CopyShard returns the response's Err, and the meta handler adds the owner only after rpcClient.CopyShard returned nil; Engine.CreateSnapshot links files only after the forced WriteSnapshot succeeded or failed with ErrSnapshotInProgress while the caller allowed skipping the cache; the time-bounded export's block test equals 'block overlaps [start,end]' and its two file tests together equal 'file overlaps the window' on every ordering of their operands (under min<=max, start<=end); Engine.overlay installs uploaded files only after the archive was read to io.EOF and aborts on any other read error; Backup/Export remove nothing but the temporary snapshot directory.",
+  note="Does not decide equality of reads on the restored shard, tar framing or hard-link semantics. Observed and not covered by a rule: the time-bounded export fails (with an error) for a TSM file that has a tombstone file.",
+  technique="static analysis: outcome facts and path exploration, predicate compilation + exhaustive evaluation over weak orderings, definition provenance",
+  ref="§9 C18"),
 }
 
 NA = {
